@@ -72,6 +72,7 @@ def check(run):
         run.guard("C03.6.scheme-patterns", cfg, lambda: rule_scheme_patterns(run, F, cfg))
         run.guard("C03.7.option-split", cfg, lambda: rule_option_split(run, F, cfg))
         run.guard("C03.8.implicit-types", cfg, lambda: rule_implicit_types(run, F, cfg))
+        run.guard("C03.1.option-chain", cfg + "/polarity", lambda: rule_polarity(run, F, cfg))
         b = run.borrow("C05", only=r"field:(mask|opt_domains|opt_not_domains)\b|key:",
                        why="rules whose options differ must not be fused into one")
         run.guard("C03.via.C05.1.fusion-key", cfg, lambda: _C05.rule_key(b, F, cfg))
@@ -290,6 +291,16 @@ def rule_check_options(run, F, cfg):
         exc = g("discr(arg:opt_not_domains)")
         if exc is None:
             problems.append("exclude list not inspected")
+        # polarity on a path that returns true: no `all(..)` over the source hashes may have held (that is
+        # "no source hash is included") and no `any(..)` may have held ("some source hash is excluded")
+        for e, v in d.items():
+            if re.search(r"Iterator>::all\(core::slice::iter\(arg:request\.source_hostname_hashes", e) and v != 0:
+                problems.append("returns true although no source hash passed an include test")
+            if re.search(r"Iterator>::any\(core::slice::iter\(arg:request\.source_hostname_hashes", e) and v != 0:
+                problems.append("returns true although a source hash hit the exclude list")
+        if exc == 1 and g("discr(arg:request.source_hostname_hashes)") == 1 and \
+                not any(re.search(r"Iterator>::any\(core::slice::iter\(arg:request\.source_hostname_hashes", e) for e in d):
+            problems.append("exclude list present but never consulted")
         if problems:
             bad.append((val, problems))
     run.floor("C03.3.check_options-table", f"non-false return paths of check_options [{cfg}]", n, 4)
@@ -317,6 +328,36 @@ def rule_check_options(run, F, cfg):
                     ok_ex = True
     run.ob("C03.3.check_options-table", "exclusion-wins", ok_ex,
            "a hit in the exclude list returns false (exclusions win)", config=cfg)
+    # the four closures: union pre-filters are `h & union` compared with h; the list tests are bin_lookup
+    def _canon(e):
+        e = re.sub(r"<&?u64 as std::ops::BitAnd<&?u64>>::bitand", "bitand", e)
+        e = re.sub(r"\(([\w:.]+) BitAnd ([\w:.]+)\)", r"bitand(\1, \2)", e)
+        e = re.sub(r"bitand\(([^(),]+), ([^(),]+)\)", lambda m: "bitand(" + ", ".join(sorted(m.groups())) + ")", e)
+        m = re.match(r"^\((.*) (Ne|Eq) ([^()]+)\)$", e)
+        if m:
+            a, b = sorted([m.group(1), m.group(3)])
+            e = f"({a} {m.group(2)} {b})"
+        return e
+
+    shapes = sorted(_canon(c.expr_local(0)) for c in cl)
+    want = sorted([
+        _canon("(bitand(arg:h, up:included_domains_union) Ne arg:h)"),
+        "Not(utils::bin_lookup(up:included_domains, arg:h))",
+        "φ{false | utils::bin_lookup(up:excluded_domains, arg:h)}",
+        "utils::bin_lookup(up:excluded_domains, arg:h)",
+    ])
+    okc = shapes == want
+    # the guarded exclude closure: bin_lookup only under (h & union) == h
+    for c in cl:
+        if c.expr_local(0).startswith("φ{false | utils::bin_lookup(up:excluded_domains"):
+            for b, t in c.calls(r"^utils::bin_lookup$"):
+                cc = dominating_conditions(c, b)
+                okc = okc and any(re.search(r"bitand\(arg:h, up:excluded_domains_union\) Eq arg:h\)$", k) and v == 1
+                                  for k, v in cc.items())
+    run.ob("C03.3.check_options-table", "closure-shapes", okc,
+           "the per-hash tests are: `h & included_union != h` (pre-filter, inside all), `!bin_lookup(included, h)` "
+           "(inside all), `h & excluded_union == h && bin_lookup(excluded, h)` and `bin_lookup(excluded, h)` "
+           f"(inside any); found {shapes}", config=cfg)
     # check_cpt_allowed: document arm
     h = [g for n2, g in F.fns.items() if n2.endswith("NetworkFilterMaskHelper::check_cpt_allowed")]
     okd = False
@@ -543,3 +584,116 @@ def rule_implicit_types(run, F, cfg):
     run.ob("C03.8.implicit-types", "conditions-read-final-option-state", not late,
            f"the positive / negative type masks and IS_REMOVEPARAM are not written after the implicit-type "
            f"arithmetic has started ({late[:2]})", config=cfg)
+
+
+def rule_polarity(run, F, cfg):
+    """`~opt` negates: the boolean payload of every negatable option is !negation, the type bit goes to the
+    positive accumulator iff the payload is true, every plain flag is set to true, and the party options clear
+    the OTHER party's bit."""
+    f = F.fn("filters::abstract_network::parse_filter_options")
+    adt = F.adt("filters::abstract_network::NetworkFilterOption")
+    variants = [v["name"] for v in adt["variants"]]
+    boolean = {v["name"] for v in adt["variants"] if [fl["ty"] for fl in v.get("fields", [])] == ["bool"]}
+    # (1) payload polarity in parse_filter_options
+    payloads = {}
+    for p in enumerate_paths(f):
+        pushes = path_calls(f, p, r"^std::vec::Vec::push$")
+        if not pushes:
+            continue
+        b, t = pushes[-1]
+        op = t["args"][1]
+        res = path_value(f, p, op["pl"]["l"]) if op.get("k") in ("copy", "move") and not op["pl"]["p"] else f.expr_operand(op)
+        m = re.search(r"NetworkFilterOption::(\w+)\{(.*)\}$", res or "")
+        if m and m.group(1) in boolean:
+            payloads.setdefault(m.group(1), set()).add(m.group(2))
+    bad = {v: sorted(ps) for v, ps in payloads.items() if not all(re.match(r"^0: Not\((…)?var:negated\)$", x) for x in ps)}
+    run.ob("C03.1.option-chain", "payload-is-not-negated", not bad and len(payloads) >= 13,
+           f"every negatable option carries `!negated` as its payload ({len(payloads)} boolean options; offending: {bad})",
+           site=f.loc(0), config=cfg)
+    neg = [f.vexpr_rvalue(st["rv"]) if False else None for _ in ()]
+    negdefs = []
+    for l, nme in f.varnames.items():
+        if nme == "negation":
+            for d in f.defs().get(l, []):
+                negdefs.append(f.vexpr_call(d[2]) if d[0] == "call" else f.vexpr_rvalue(d[3]["rv"]))
+    run.ob("C03.1.option-chain", "negation-is-tilde-prefix",
+           len(negdefs) == 1 and bool(re.match(r"^core::str::starts_with\(.*'~'\)$", negdefs[0])),
+           f"`negation` is raw_option.starts_with('~') ({negdefs})", config=cfg)
+    # (2) accumulators / flag values in NetworkFilter::parse
+    p = F.fn("filters::network::NetworkFilter::parse")
+    cl = [c for c in F.closures_of(p.name) if len(c.calls(r"::set$")) > 10]
+    if len(cl) != 1:
+        run.ob("C03.1.option-chain", "option-closure", False, "per-option closure of NetworkFilter::parse not found",
+               status="UNDISCHARGED", config=cfg)
+        return
+    c = cl[0]
+    rows = []
+    for b, t in c.calls(r"::set$"):
+        cond = dominating_conditions(c, b, render=c.vexpr_operand)
+        var = [variants[v] for k, v in cond.items() if k in ("discr($option)", "discr(arg:option)") and isinstance(v, int) and v < len(variants)]
+        en = cond.get("$enabled")
+        rows.append((b, c.vexpr_operand(t["args"][0]).split(":")[-1], re.sub(r".*NetworkFilterMask::", "", c.vexpr_operand(t["args"][1])),
+                     c.vexpr_operand(t["args"][2]), var[0] if var else None, en))
+    bad_t = []
+    n_t = 0
+    by_var = {}
+    for b, tgt, bit, val, var, en in rows:
+        if var in boolean and bit.startswith("FROM_"):
+            by_var.setdefault(var, set()).add((tgt, val, en))
+    for var, got in sorted(by_var.items()):
+        n_t += 1
+        if got != {("cpt_mask_positive", "true", 1), ("cpt_mask_negative", "true", 0)}:
+            bad_t.append((var, sorted(got, key=str)))
+    run.ob("C03.1.option-chain", "type-bit-polarity", not bad_t and n_t >= 11,
+           f"for each of the {n_t} negatable type options: enabled => positive accumulator, !enabled => negative "
+           f"accumulator, always `true` (offending: {bad_t})", site=c.loc(0), config=cfg)
+    bad_v = [(bit, val, var) for b, tgt, bit, val, var, en in rows
+             if bit not in ("FIRST_PARTY", "THIRD_PARTY") and val != "true"]
+    run.ob("C03.1.option-chain", "flags-set-true", not bad_v,
+           f"every option flag is SET (value true) by its option arm (offending: {bad_v})", config=cfg)
+    # (3) party options: which (variant, payload) reaches which clear
+    clears = {bit: b for b, tgt, bit, val, var, en in rows if bit in ("FIRST_PARTY", "THIRD_PARTY") and val == "false" and tgt == "mask"}
+    reach = {"FIRST_PARTY": set(), "THIRD_PARTY": set()}
+    for pth in enumerate_paths(c):
+        combo = None
+        var = None
+        for e, v in pth.conds:
+            if e in ("discr(arg:option)",) and isinstance(v, int) and v < len(variants):
+                var = variants[v]
+            m = re.match(r"^arg:option@(ThirdParty|FirstParty)\.0$", e)
+            if m and v in (0, 1):
+                combo = (m.group(1), v)
+        for bit, blk in clears.items():
+            if blk in pth.blocks and combo:
+                reach[bit].add(combo)
+    want = {"THIRD_PARTY": {("ThirdParty", 0), ("FirstParty", 1)}, "FIRST_PARTY": {("ThirdParty", 1), ("FirstParty", 0)}}
+    run.ob("C03.1.option-chain", "party-polarity", reach == want and len(clears) == 2,
+           f"$third-party / $~first-party clear FIRST_PARTY; $first-party / $~third-party clear THIRD_PARTY "
+           f"(extracted {dict((k, sorted(v)) for k, v in reach.items())})", site=c.loc(0), config=cfg)
+    # (4) domain option: `~d` is an exclusion, the unions are OR-folds, lists are sorted
+    dom = [g for g in F.closures_of(f.name) if g.calls(r"strip_prefix$")]
+    okd = False
+    if len(dom) == 1:
+        g = dom[0]
+        pr = {}
+        for pth in enumerate_paths(g):
+            if pth.end != "return":
+                continue
+            stripped = [v for e, v in pth.conds if "strip_prefix(" in e and e.startswith("discr(")]
+            val = path_value(g, pth, 0) or ""
+            m = re.match(r"^\((true|false), ", val)
+            if stripped and m:
+                pr[1 if stripped[0] == 1 else 0] = m.group(1)
+        okd = pr == {1: "false", 0: "true"}
+    run.ob("C03.1.option-chain", "domain-tilde-is-exclusion", okd,
+           "in `domain=`, an entry with the `~` prefix is parsed as (false, name) and any other entry as (true, name)",
+           config=cfg)
+    folds = []
+    for g in {g.name: g for g in F.closures_of(c.name) + F.closures_of(p.name)}.values():
+        e = g.expr_local(0)
+        if re.match(r"^\(arg:acc BitOr |^<.*BitOr.*>::bitor\(arg:acc", e) or " BitOr " in e and "arg:acc" in e:
+            folds.append("or")
+        elif "arg:acc" in e:
+            folds.append(e[:60])
+    run.ob("C03.1.option-chain", "domain-unions-are-or-folds", folds == ["or", "or"],
+           f"opt_domains_union / opt_not_domains_union are bitwise-OR folds of the hashes ({folds})", config=cfg)
